@@ -564,11 +564,13 @@ impl<'a, 'tcx> Visitor<'tcx> for BV<'a, 'tcx> {
                 }
                 // aggregates (Some(x), tuples, struct literals): the result is derived from each operand
                 if let Rvalue::Aggregate(_, ops) = rv {
-                    for op in ops.iter() {
+                    for (idx, op) in ops.iter().enumerate() {
                         if let Operand::Copy(p) | Operand::Move(p) = op {
+                            // field-sensitive: the idx-th field of the aggregate is derived from p
                             let s = format!(
-                                "[\"mv\",\"_{}\",{}]",
+                                "[\"mv\",\"_{}.{}\",{}]",
                                 place.local.as_usize(),
+                                idx,
                                 esc(&self.place_str(p))
                             );
                             self.push(loc.block, s);
